@@ -720,3 +720,32 @@ Proof.
     apply N.ltb_ge in T. apply N.leb_gt. lia. }
   rewrite E2. reflexivity.
 Qed.
+
+(* ------------------------------------------------------------------ *)
+(** * Changing the per-(cluster, ip) limit at run time *)
+
+Lemma set_limit_keeps_slots st n :
+  n <> 0 ->
+  fwd (st_sm (set_limit_op st n)) = fwd (st_sm st) /\ rev (st_sm (set_limit_op st n)) = rev (st_sm st) /\
+  limit (st_sm (set_limit_op st n)) = n /\ live (set_limit_op st n) = live st.
+Proof.
+  intros H. unfold set_limit_op. assert (E : (n =? 0) = false) by (apply N.eqb_neq; exact H). rewrite E.
+  cbn. repeat split.
+Qed.
+
+Lemma set_limit_zero_wipes st :
+  fwd (st_sm (set_limit_op st 0)) = [] /\ rev (st_sm (set_limit_op st 0)) = [].
+Proof. unfold set_limit_op. cbn. split; reflexivity. Qed.
+
+(** right after the limit was set to [n > 0] (enabled from 0, raised or lowered),
+    the gate refuses exactly the tokens that hold no slot for a (cluster, ip)
+    whose count, as it was before the change, is at least [n] *)
+Lemma gate_after_limit_change st n tok k :
+  n <> 0 ->
+  at_limit (st_sm (set_limit_op st n)) tok k None =
+  negb (mem k (rev_get tok (rev (st_sm st)))) && (n <=? fwd_get k (fwd (st_sm st))).
+Proof.
+  intros H. destruct (set_limit_keeps_slots st n H) as (F & R & L & _).
+  unfold at_limit. rewrite F, R, L. assert (E : (n =? 0) = false) by (apply N.eqb_neq; exact H). rewrite E.
+  destruct (mem k (rev_get tok (rev (st_sm st)))); reflexivity.
+Qed.
